@@ -40,8 +40,10 @@ MANIFEST_ENTRY = {
             "window comes back as that very number; -1 px / +1 px on either axis — coarse peak on the last / second index — give exactly "
             "(+1 / -1) through both entry points at every factor, non-square shapes included), the end-to-end composition FFT tables -> entry "
             "point -> translating the second image by the returned shift reproduces the first (both entry points, every factor, max_shift), "
+            "the refinement of both entry points to one closed-form specification on integer-shifted copies (centredInt M (-a), centredInt N (-b): "
+            "np_refines_spec / torch_refines_spec, so the two estimators agree at every pair of factors; the specification is odd except at the tie), "
             "and a model of the third estimator of the anchored files, tomography.utils.torch_phase_cross_correlation (first maximum of |cc|, "
-            "per-axis centring `> dim // 2`): integer-shift exactness in (-dim/2, dim/2] for non-negative images, its sign convention, and "
+            "per-axis centring `> dim // 2`): integer-shift exactness in (-dim/2, dim/2] for non-negative images, its sign convention, swap negation for every image pair with a unique |cc| maximum, and "
             "where it differs from the other two (the tie dim/2 stays positive); tied to the code by an exact stream (driver op `phase`). "
             "A FIXED block (independent of VERIF_SEED, harness/props/c13_g6.py) enumerates: +-1 px on each axis separately, shifts at and "
             "beyond half the size, H<W and H>W, factors 1,2,3,10,16,100,128 for both estimators, max_shift exactly on / one ulp outside the lag "
